@@ -325,22 +325,76 @@ theorem validPart_facts {bnd : Bytes} {p : Part} (h : ValidPart bnd p) :
   rw [hf] at this
   exact this
 
+/-- the Data events of a part whose payload arrives in pieces: `more_data` on all but the last -/
+def dataEvents (pieces : List Bytes) (last : Bytes) : List Event :=
+  pieces.map (fun x => Event.data x true) ++ [.data last false]
+
+/-- the body line break and the payload, as the encoder frames them -/
+def framed (payload : Bytes) : Bytes := if payload.isEmpty then [] else 13 :: 10 :: payload
+
+/-- in state DATA the encoder copies the data -/
+theorem encodeEvents_data_tail {bnd : Bytes} (pieces : List Bytes) (last : Bytes) (rest : List Event)
+    {out : Bytes} (hrest : encodeEvents bnd .data rest = .ok out) :
+    encodeEvents bnd .data (dataEvents pieces last ++ rest) = .ok (pieces.flatten ++ last ++ out) := by
+  induction pieces with
+  | nil => simp [dataEvents, encodeEvents, sendEvent, hrest]
+  | cons x t ih =>
+    simp only [dataEvents, List.map_cons, List.cons_append] at ih ⊢
+    simp only [encodeEvents, sendEvent]
+    simp only [show (State.data == State.dataStart) = false from rfl, Bool.false_eq_true, if_false,
+      show (State.data == State.data) = true from rfl, if_true]
+    rw [ih]
+    simp
+
+/-- at the start of the body: nothing is written for empty chunks, the line break comes with the
+first non-empty one (as repaired by d57c0c6) -/
+theorem encodeEvents_data_start {bnd : Bytes} (pieces : List Bytes) (last : Bytes) (rest : List Event)
+    {out : Bytes} (hrest : encodeEvents bnd .data rest = .ok out) :
+    encodeEvents bnd .dataStart (dataEvents pieces last ++ rest) =
+      .ok (framed (pieces.flatten ++ last) ++ out) := by
+  induction pieces with
+  | nil =>
+    cases last with
+    | nil => simp [dataEvents, encodeEvents, sendEvent, hrest, framed]
+    | cons a t => simp [dataEvents, encodeEvents, sendEvent, hrest, framed, crlf]
+  | cons x t ih =>
+    cases x with
+    | nil =>
+      simp only [dataEvents, List.map_cons, List.cons_append] at ih ⊢
+      simp only [encodeEvents, sendEvent]
+      simp only [show (State.dataStart == State.dataStart) = true from rfl, if_true, List.length_nil,
+        Nat.lt_irrefl, if_false]
+      rw [ih]
+      simp
+    | cons a x' =>
+      have htail := encodeEvents_data_tail (bnd := bnd) t last rest hrest
+      simp only [dataEvents, List.map_cons, List.cons_append] at htail ⊢
+      simp only [encodeEvents, sendEvent]
+      simp only [show (State.dataStart == State.dataStart) = true from rfl, if_true]
+      have : 0 < (a :: x').length := by simp
+      simp only [gt_iff_lt, this, if_true]
+      rw [htail]
+      simp [framed, crlf]
+
+theorem encodeEvents_part_chunked {bnd : Bytes} {p : Part} {st : State} (hst : st = .part ∨ st = .data)
+    (hv : ValidPart bnd p) (pieces : List Bytes) (last : Bytes) (hp : pieces.flatten ++ last = p.payload)
+    (rest : List Event) {out : Bytes} (hrest : encodeEvents bnd .data rest = .ok out) :
+    encodeEvents bnd st (partHeadEvent p :: (dataEvents pieces last ++ rest)) =
+      .ok (encPart bnd (nameOf p) p ++ out) := by
+  have hs := sendEvent_part (bnd := bnd) hst (validPart_name hv) (validPart_facts hv).2.2.2.2.1
+  simp only [encodeEvents, hs]
+  rw [encodeEvents_data_start pieces last rest hrest, hp]
+  simp only
+  congr 1
+  unfold encPart framed
+  simp
+
 theorem encodeEvents_part {bnd : Bytes} {p : Part} {st : State} (hst : st = .part ∨ st = .data)
     (hv : ValidPart bnd p) (rest : List Event) {out : Bytes}
     (hrest : encodeEvents bnd .data rest = .ok out) :
     encodeEvents bnd st (partEvents p ++ rest) = .ok (encPart bnd (nameOf p) p ++ out) := by
-  have hs := sendEvent_part (bnd := bnd) hst (validPart_name hv) (validPart_facts hv).2.2.2.2.1
-  simp only [partEvents, List.cons_append, List.nil_append, encodeEvents, hs]
-  have hd : sendEvent bnd .dataStart (.data p.payload false) =
-      .ok (if p.payload.length > 0 then crlf ++ p.payload else p.payload, .data) := by
-    simp [sendEvent]
-  rw [hd]
-  simp only [hrest]
-  congr 1
-  unfold encPart
-  cases hp : p.payload with
-  | nil => simp
-  | cons a t => simp [crlf]
+  have := encodeEvents_part_chunked hst hv [] p.payload (by simp) rest hrest
+  simpa [partEvents, dataEvents] using this
 
 theorem encodeEvents_parts {bnd : Bytes} (ps : List Part) (hv : ∀ p ∈ ps, ValidPart bnd p) :
     ∀ st, st = .part ∨ st = .data →
@@ -356,6 +410,41 @@ theorem encodeEvents_parts {bnd : Bytes} (ps : List Part) (hv : ∀ p ∈ ps, Va
     simp only [List.flatMap_cons, List.append_assoc]
     rw [encodeEvents_part hst (hv p (by simp)) _ this]
     rfl
+
+/-- a part together with a chunking of its payload into Data events -/
+abbrev ChunkedPart := Part × List Bytes × Bytes
+
+/-- Field/File event, then one Data event per piece (`more_data` on all but the last) -/
+def chunkedEvents (c : ChunkedPart) : List Event := partHeadEvent c.1 :: dataEvents c.2.1 c.2.2
+
+theorem encodeEvents_chunked_parts {bnd : Bytes} (cs : List ChunkedPart)
+    (hv : ∀ c ∈ cs, ValidPart bnd c.1 ∧ c.2.1.flatten ++ c.2.2 = c.1.payload) :
+    ∀ st, st = .part ∨ st = .data →
+    encodeEvents bnd st (cs.flatMap chunkedEvents ++ [.epilogue []]) = .ok (encBody bnd (cs.map (·.1))) := by
+  induction cs with
+  | nil =>
+    intro st hst
+    rcases hst with h | h <;> subst h <;>
+      simp [encodeEvents, sendEvent, encBody, closing, crlf, delim]
+  | cons c cs ih =>
+    intro st hst
+    have := ih (fun q hq => hv q (by simp [hq])) .data (Or.inr rfl)
+    have hc := hv c (by simp)
+    simp only [List.flatMap_cons, chunkedEvents, List.cons_append, List.append_assoc, List.map_cons]
+    rw [encodeEvents_part_chunked hst hc.1 c.2.1 c.2.2 hc.2 _ this]
+    rfl
+
+/-- **every event sequence of the shape the encoder is meant for** — `Preamble(b"")`, per part a
+Field/File event and any number of Data events (`more_data` on all but the last, empty chunks
+anywhere), `Epilogue(b"")` — encodes to the same bytes as one Data event per part -/
+theorem encodeEvents_chunked {bnd : Bytes} (cs : List ChunkedPart)
+    (hv : ∀ c ∈ cs, ValidPart bnd c.1 ∧ c.2.1.flatten ++ c.2.2 = c.1.payload) :
+    encodeEvents bnd .preamble (.preamble [] :: (cs.flatMap chunkedEvents ++ [.epilogue []])) =
+      .ok (encBody bnd (cs.map (·.1))) := by
+  simp only [encodeEvents, sendEvent]
+  simp only [beq_self_eq_true, if_true]
+  rw [encodeEvents_chunked_parts cs hv .part (Or.inl rfl)]
+  simp
 
 /-- **what `encodeAll` writes** -/
 theorem encodeAll_eq {bnd : Bytes} (ps : List Part) (hv : ∀ p ∈ ps, ValidPart bnd p) :
